@@ -566,6 +566,17 @@ theorem read_by_dimension_index_is_read_by_source (codec : Option Codec) (o : Se
       readBySource codec o (ks.map fun k => ord.getD (k - segDimIndexStart) 0) .assertEmpty :=
   readByDimIndex_eq codec o ord hnd hk ks hks
 
+/-- (10b') **Reading by the source numbers the frames record.**  A frame does not name its plane index but
+`source_image_index` (+ 1 as ReferencedFrameNumber, T24 / T25): the plane index itself for stacks of planes, and for a mask
+handed over as a total pixel matrix the frame of the source image that SHOWS the tile, looked up by position (fix 41ae887 --
+a TILED_SPARSE source lists its tiles in any order).  For every numbering `σ` that is injective on the planes involved,
+`get_pixels_by_source_frame` with the recorded numbers reads exactly what reading the planes reads: the mask stays attached to
+the source frame that shows it. -/
+theorem read_by_recorded_source_is_read_by_plane (codec : Option Codec) (σ : Nat → Nat) (o : SegObj) (request : List Nat)
+    (hinj : ∀ k ∈ o.keys, ∀ p, (p ∈ request ∨ ∃ k' ∈ o.keys, k'.2 = p) → σ k.2 = σ p → k.2 = p) :
+    readBySource codec (relabelSources σ o) (request.map σ) .assertEmpty = readBySource codec o request .assertEmpty :=
+  readBySource_relabel codec σ o request hinj
+
 /-- (10c) **Frame by frame** (`get_stored_frame(i + 1)`, row `i` of `pixel_array`, whatever the transport): the `i`-th
 stored frame is the property's expectation for the segment and the source plane its per-frame functional groups name -- a
 frame of segment `s` is `expectedPlane` of `s` in that plane of the user's mask; the one-hot expansion of a LABELMAP frame is
